@@ -46,6 +46,12 @@ def gen_history(rng, nops):
     pool = [with_prefix(rng, selfid, rng.choice(Ls)) for _ in range(rng.choice([3, 18, 25, 40]))]
     if Ls == [255]:
         pool = pool[:3]
+    # "fill" histories: one or two buckets, 17..40 distinct long-lived ids, so that buckets reach kBucketSize and the
+    # eviction order (oldest first) and the refresh-to-back order become observable
+    fill = rng.random() < 0.4
+    if fill:
+        Ls = [rng.randrange(0, 250) for _ in range(rng.choice([1, 1, 2]))]
+        pool = [with_prefix(rng, selfid, rng.choice(Ls)) for _ in range(rng.choice([17, 18, 25, 40]))]
     now = 1000
     ops = []
     addr = 0
@@ -54,7 +60,9 @@ def gen_history(rng, nops):
         if r < 0.5:
             idv = rng.choice(pool) if rng.random() < 0.93 else (selfid if rng.random() < 0.5 else [rng.randrange(256) for _ in range(32)])
             addr += 1
-            if rng.random() < 0.6:
+            if fill and rng.random() < 0.9:
+                ops += [[1] + idv + [addr, now + rng.choice([4000, 5000, 100000, 40 + addr])]]
+            elif rng.random() < 0.6:
                 e = rng.choice([0, now, now + 1, now + 2, now + 10, now + 60, now + 3000, now - 1, rng.randrange(1, now + 5000)])
                 ops += [[1] + idv + [addr, e]]
             else:
@@ -67,7 +75,7 @@ def gen_history(rng, nops):
             t = rng.choice([selfid, rng.choice(pool), [rng.randrange(256) for _ in range(32)], with_prefix(rng, selfid, rng.choice(Ls))])
             ops += [[6], [4] + t + [rng.choice([0, 1, 3, 16, 20, 1000])]]
         elif r < 0.92:
-            dt = rng.choice([0, 1, 2, 9, 10, 11, 59, 60, 61, rng.randrange(3100)])
+            dt = rng.choice([0, 1, 2, 9, 10, 11, 59, 60, 61, rng.randrange(3100)]) if not fill else rng.choice([0, 1, 5, 30])
             now += dt
             ops += [[5, dt]]
         else:
